@@ -930,7 +930,14 @@ def q_c14_arrows(tr):
                         # the neighbour the line comes from is the one opposite to D
                         tail_nb = NB_BY_SIGN[(-sgn(D[0]), -sgn(D[1]))]
                         off = nb_offset_pt(tail_nb)
-                        S = chars_with_line(m, lambda ln: crossp(a - off, b - off, ln[1]) == 0 and crossp(a - off, b - off, ln[2]) == 0)
+                        # continuity: the stub's tail end q lies on the border shared with the tail-side
+                        # neighbour, and that neighbour's line (collinear with the stub) passes through q
+                        q = a if (a[0] * D[0] + a[1] * D[1]) <= (b[0] * D[0] + b[1] * D[1]) else b
+                        in_tail_cell = off[0] <= q[0] <= off[0] + 1 and off[1] <= q[1] <= off[1] + 2
+                        if not in_tail_cell:
+                            problems.append("the line stub does not reach the border towards the line it terminates")
+                        S = chars_with_line(m, lambda ln: crossp(a - off, b - off, ln[1]) == 0 and crossp(a - off, b - off, ln[2]) == 0
+                                            and on_segment(ln[1], ln[2], q - off))
                         axis_sets = (tail_nb, S)
                 elif len(tips) == 1:
                     # an arrowhead without line stub (attached to a corner character): the tail-side neighbour must exist
@@ -939,7 +946,7 @@ def q_c14_arrows(tr):
                 desc = ("character %r, behaviour entry %d: arrowhead polygon %s tagged %s: unique tip in the tagged "
                         "direction, filled, tip on the axis of and beyond the line stub emitted with it, base vertices on "
                         "opposite sides of that axis; and in EVERY neighbourhood in which the entry fires, the neighbour "
-                        "on the tail side carries a line along that axis (so the head points away from the line)"
+                        "on the tail side carries a line along that axis that meets the stub at the shared cell border (so the head continues the line and points away from it)"
                         % (ch, ei, [(float(p[0]), float(p[1])) for p in pts], tags))
                 if problems:
                     # geometric defect of a concrete table entry: violation iff the entry is reachable
